@@ -350,6 +350,42 @@ pub fn special_cross(fam: Family, s: Scalar) -> Vec<DistSpec> {
     v
 }
 
+/// Magnitude cross for the location-scale families whose single draw is enumerated (C13):
+/// the generic point with all its location / scale parameters multiplied by 10^k.  A guard
+/// that compares a range or a scale with an absolute epsilon, or a rewrite through
+/// `exp(ln(scale) + ..)`, is exact near 1 and wrong far from it.
+pub fn magnitude_cross(fam: Family, s: Scalar) -> Vec<DistSpec> {
+    let Some(base) = generic_base(fam) else { return vec![] };
+    // which parameters are positively homogeneous of degree 1
+    let hom: &[usize] = match fam {
+        Family::Cauchy | Family::Gumbel => &[0, 1],
+        Family::Frechet => &[0, 1],
+        Family::Weibull | Family::Pareto => &[0],
+        Family::Triangular => &[0, 1, 2],
+        _ => return vec![],
+    };
+    // inside E: magnitudes in W(F) = [1e-6, 1e6] (f32), [1e-30, 1e30] (f64); the generic
+    // values are between 0.7 and 3.1.  (Outside W the unchanged Triangular<f32> itself
+    // underflows / overflows in its intermediate product: seen at 1e-30 and 1e20, not judged.)
+    let ks: &[i32] = if s == Scalar::F32 { &[-6, -4, 4, 5] } else { &[-30, -10, 10, 29] };
+    let mut v = Vec::new();
+    for &k in ks {
+        let c = 10.0_f64.powi(k);
+        let mut p = base.clone();
+        for &i in hom {
+            p[i] *= c;
+        }
+        v.push(DistSpec::f(fam, s, &p));
+        // location 0: the scale alone carries the magnitude
+        if hom.len() >= 2 && fam != Family::Triangular {
+            let mut q = p.clone();
+            q[0] = 0.0;
+            v.push(DistSpec::f(fam, s, &q));
+        }
+    }
+    v
+}
+
 /// Random interior point of E for a continuous family.
 pub fn cont_random(fam: Family, s: Scalar, r: &mut SimRng) -> DistSpec {
     let f32_ = s == Scalar::F32;
